@@ -776,6 +776,85 @@ impl Light {
     }
 }
 
+
+// ---------------------------------------------------------------------------------------
+// concurrent episode: GetLastState requests answered while the chain reorganises
+
+/// Raw GetLastState round trip on the calling thread (own protocol object and runtime); used by
+/// the poller thread of the concurrent episode. None = no reply (ban / silence / panic).
+pub fn raw_last_state(shared: &ckb_shared::Shared, rt: &tokio::runtime::Runtime) -> Result<Option<Bytes>, String> {
+    let ctx = Arc::new(RecCtx::new());
+    let nc: Arc<dyn CKBProtocolContext + Sync> = ctx.clone();
+    let mut proto = LightClientProtocol::new(shared.clone());
+    let content = packed::GetLastState::new_builder().subscribe(false).build();
+    let msg = packed::LightClientMessage::new_builder().set(content).build();
+    let res = catch_unwind(AssertUnwindSafe(|| rt.block_on(proto.received(nc, PeerIndex::new(9), msg.as_bytes()))));
+    if let Err(p) = res {
+        let msg = p.downcast_ref::<&str>().map(|s| s.to_string()).or_else(|| p.downcast_ref::<String>().cloned()).unwrap_or_default();
+        return Err(msg);
+    }
+    let sent = ctx.sent.lock().unwrap().clone();
+    Ok(sent.into_iter().next())
+}
+
+impl Light {
+    /// Judge the replies a poller thread collected while blocks were delivered: each must name a
+    /// block that was the tip at some moment of the episode (`acceptable`), and its chain root,
+    /// extension and every other field must be those of that block on its own chain (model view
+    /// built with that block as the tip).
+    pub fn judge_concurrent_last_states(&mut self, rc: &RefChain, delivered: &HashSet<H>, acceptable: &HashSet<H>, replies: Vec<Result<Option<Bytes>, String>>, c: &Ctx) {
+        let kind = "last_state_during_reorg";
+        let req = json!({"kind": "GetLastState", "concurrent_with": "block deliveries that reorganise the chain"});
+        let mut views: HashMap<H, View> = HashMap::new();
+        let mut distinct_tips: HashSet<H> = HashSet::new();
+        for rep in replies {
+            self.r.count("light.concurrent.requests");
+            self.r.eval();
+            let data = match rep {
+                Err(m) => {
+                    let out = Outcome::Panic(m.clone());
+                    self.r.violation(&Self::panic_sig(kind, "valid_request", &m), format!("GetLastState handler panicked while the chain was reorganising: {m}"), self.wit(c, &req, &out, json!({})));
+                    continue;
+                }
+                Ok(None) => {
+                    let out = Outcome::Nothing;
+                    self.r.violation(&format!("light.{kind}.no_reply_to_valid_request"), "GetLastState got no reply while the chain was reorganising".into(), self.wit(c, &req, &out, json!({})));
+                    continue;
+                }
+                Ok(Some(d)) => d,
+            };
+            let out = Outcome::Replies(vec![data.clone()]);
+            let parsed = packed::LightClientMessageReader::from_compatible_slice(&data).ok().and_then(|m| match m.to_enum() {
+                packed::LightClientMessageUnionReader::SendLastState(s) => Some(s.to_entity()),
+                _ => None,
+            });
+            let Some(st) = parsed else {
+                self.unparsable(c, kind, &req, &out, "not a SendLastState");
+                continue;
+            };
+            let vh = st.last_header();
+            let hash = blake2b_256(vh.header().as_slice());
+            if !acceptable.contains(&hash) {
+                self.r.violation(
+                    &format!("light.{kind}.last_header_was_never_the_tip"),
+                    format!("GetLastState answered with header {} which was not the tip at any moment of the episode", hx(&hash)),
+                    self.wit(c, &req, &out, json!({"acceptable_tips": acceptable.iter().map(hx).collect::<Vec<_>>() })),
+                );
+                continue;
+            }
+            let v = views.entry(hash).or_insert_with(|| View::build(rc, hash, delivered));
+            if self.judge_last_header(v, c, kind, LastClass::Tip, &hash, &vh, &req, &out).is_some() {
+                self.r.count("light.concurrent.replies_verified");
+                distinct_tips.insert(hash);
+            }
+        }
+        self.r.count_n("light.concurrent.distinct_tips_served_in_episodes", distinct_tips.len() as u64);
+        if distinct_tips.len() >= 2 {
+            self.r.count("light.concurrent.episodes_with_replies_on_both_sides_of_a_tip_change");
+        }
+    }
+}
+
 // ---------------------------------------------------------------------------------------
 // choice of `last_hash`
 
